@@ -564,6 +564,13 @@ class C02(core.Prop):
                 for kind, val in fr.items():
                     if bool(row[kind]) != bool(val):
                         fail('to_frame', '%s.%s table %r verdict %r' % (name, kind, row[kind], val))
+                # a kind the field has no constraint of carries no verdict in the table (a null cell, not a pass)
+                for kind in tf.columns:
+                    if kind in ('field', 'failures', 'passes') or kind in fr:
+                        continue
+                    if not pd.isnull(row[kind]):
+                        fail('to_frame', '%s has no %s constraint but the table shows %r for it' % (name, kind, row[kind]),
+                             'to_frame:verdict-for-absent-constraint')
             s = str(v)
             m = re.search(r'Constraints passing: (\d+)\nConstraints failing: (\d+)', s)
             if not m or (int(m.group(1)), int(m.group(2))) != (v.passes, v.failures):
